@@ -64,7 +64,10 @@ def _imported_private(p: Program, modname: str) -> Dict[str, str]:
 def baseline_new_nested(p: Program, fi: FunctionInfo) -> Set[str]:
     """Names of the nested functions of *fi* that survive the normal form and are not anchors.  (On the pinned tree every such function is
     either an anchor the rules name or was inlined; what is left after a refactoring is code the rules have not looked into.)"""
-    return {n.name for n in ast.walk(fi.node) if isinstance(n, (ast.FunctionDef, ast.AsyncFunctionDef)) and n is not fi.node}
+    # only two-level nesting (a nested function that defines functions of its own) - the shape the inliner cannot dissolve; a plain closure
+    # that stayed is readable for the rules (the grouping closures, a cache helper a change added)
+    return {n.name for n in ast.walk(fi.node) if isinstance(n, (ast.FunctionDef, ast.AsyncFunctionDef)) and n is not fi.node
+            and any(isinstance(m, (ast.FunctionDef, ast.AsyncFunctionDef)) and m is not n for m in ast.walk(n))}
 
 
 def residuals(p: Program, fi: FunctionInfo) -> List[str]:
